@@ -633,6 +633,9 @@ def binop(it, op, a, b, node):
             raise PyRaise(ZeroDivisionError, ('division by zero',), node) from None
         except TypeError as exc:
             raise PyRaise(TypeError, exc.args, node) from None
+    if isinstance(op, ast.Add) and isinstance(a, SV) and isinstance(b, SV) and a.kind == 'str' and b.kind == 'str' \
+            and a.none is None and b.none is None:
+        return SV('str', uf('str_concat', UStr, UStr, UStr)(a.z, b.z))
     if isinstance(a, (SV, int, float, bool)) and isinstance(b, (SV, int, float, bool)):
         return arith(it, op, a, b, node)
     if isinstance(a, SV) and a.kind == 'zstr' or isinstance(b, SV) and b.kind == 'zstr':
